@@ -149,4 +149,24 @@ theorem b12_family_embedding (x : Int) (h3 : (x - 1) ^ 2 * b12R x % 3 = 0) :
       + (3 * x + (x - 1) ^ 2 * b12R x) * (3 * x) ^ 2 + (3 * x) ^ 3) - 9 * (x - 1) ^ 2 * ((3 * x + (x - 1) ^ 2 * b12R x) + 3 * x), ?_⟩
   unfold b12R; ring
 
+/-! ### Twisted Edwards parameter sets (src/ed/relic_ed_param.c) -/
+
+/-- every selectable Edwards set: canonical constants over an extracted field, complete addition law (a a non-zero square, d a non-square),
+    generator on the curve and not neutral, r·G = O, h·r in the Hasse interval and the only multiple of r there, 4 ∣ h -/
+theorem edwards_sets_consistent :
+    Params.edCurves.all (fun c => match lookupField (Params.fields ++ Params.extraFields) c.field with
+      | some f => edOk f.prime c
+      | none => false) = true := by decide +kernel
+
+theorem edwards_orders_certified :
+    Params.edCurves.all (fun c => (certified Certs.lines).contains c.r) = true := by decide +kernel
+
+/-- the stated order of every selectable Edwards group is prime -/
+theorem edwards_orders_prime : ∀ c ∈ Params.edCurves, Nat.Prime c.r := by
+  intro c hc
+  have h := List.all_eq_true.mp edwards_orders_certified c hc
+  exact certified_prime Certs.lines c.r (by simpa using h)
+
+theorem edwards_table_nonempty : Params.edCurves.length ≥ 1 := by decide +kernel
+
 end Relic.Props.C18
